@@ -78,7 +78,30 @@ def build_and_verify(unit, scratch, rlimit=None):
     if keep:
         os.makedirs(keep, exist_ok=True)
         shutil.copy(path, os.path.join(keep, unit + '.rs'))
-    res = V.run(path, rlimit=rlimit or cfg.get('rlimit', 60))
+    base_rl = rlimit or cfg.get('rlimit', 60)
+    res = V.run(path, rlimit=base_rl)
+    # a function that ran out of resources gives no verdict at all: retry it alone with a larger budget
+    full_names = list(res['functions'].keys())
+    for attempt in (1,):
+        starved = []
+        for d in res['diags']:
+            if 'Resource limit' in d.get('message', '') or 'rlimit' in d.get('message', ''):
+                for s in d.get('spans', []):
+                    m = re.search(r'fn\s+(\w+)', (s.get('text') or [{}])[0].get('text', ''))
+                    if m:
+                        starved.append((m.group(1), d))
+        for name, d in starved:
+            cands = [n for n in full_names if n.split('::')[-1] == name]
+            if len(cands) != 1:
+                continue
+            pat = '::'.join(cands[0].split('::')[1:])
+            r2 = V.run(path, rlimit=base_rl * 6, only_fn=pat)
+            if r2.get('tool_error') or any('Resource limit' in x.get('message', '') for x in r2['diags']):
+                continue
+            res['diags'] = [x for x in res['diags'] if x is not d] + r2['diags']
+            for k, v in r2['functions'].items():
+                res['functions'][k] = v
+            res['wall_s'] += r2['wall_s']
     lines = text.split('\n')
     fn_lines = []
     mask_src = text
@@ -97,10 +120,10 @@ def build_and_verify(unit, scratch, rlimit=None):
         return name
     failures = [V.classify(d, lines, fn_at_line) for d in res['diags']]
     # vacuity twins: functions named *__reach must FAIL (their only claim is `false`)
-    twins = sorted({nm for _, nm in fn_lines if nm.endswith('__reach')})
-    twin_failed = {f['function'] for f in failures if f['function'] and f['function'].endswith('__reach')}
+    twins = sorted({nm for _, nm in fn_lines if nm.startswith('reach__')})
+    twin_failed = {f['function'] for f in failures if f['function'] and f['function'].startswith('reach__')}
     vacuous = [t for t in twins if t not in twin_failed]
-    failures = [f for f in failures if not (f['function'] or '').endswith('__reach')]
+    failures = [f for f in failures if not (f['function'] or '').startswith('reach__')]
     return {'unit': unit, 'cfg': cfg, 'text': text, 'lines': lines, 'metas': metas, 'verus': res,
             'failures': failures, 'twins': twins, 'vacuous_twins': vacuous, 'fn_lines': fn_lines}
 
@@ -110,7 +133,7 @@ def fn_verdicts(bv):
     out = {}
     for full, v in bv['verus']['functions'].items():
         name = full.split('::')[-1]
-        if name.endswith('__reach'):
+        if name.startswith('reach__'):
             continue
         if name in out:
             # same name in two impls (e.g. Segment::new / Meta::new): merge conservatively
